@@ -1388,6 +1388,7 @@ func remapIndex(ctx context.Context, mp *mhprimary.MultihashPrimary, buckets Buc
 			// in each record in the record list.
 			localPos := buckets[pfx] - (types.Position(fileNum) * types.Position(maxFileSize))
 			if _, err = file.ReadAt(sizeBuf, int64(localPos-sizePrefixSize)); err != nil {
+				file.Close()
 				return nil, fmt.Errorf("cannot read record list size from index file %s: %w", file.Name(), err)
 			}
 			size := binary.LittleEndian.Uint32(sizeBuf)
@@ -1396,6 +1397,7 @@ func remapIndex(ctx context.Context, mp *mhprimary.MultihashPrimary, buckets Buc
 			}
 			data := scratch[:size]
 			if _, err = file.ReadAt(data, int64(localPos)); err != nil {
+				file.Close()
 				return nil, fmt.Errorf("cannot read record list from index file %s: %w", file.Name(), err)
 			}
 			records := NewRecordList(data)
@@ -1417,6 +1419,7 @@ func remapIndex(ctx context.Context, mp *mhprimary.MultihashPrimary, buckets Buc
 				recordCount++
 			}
 			if _, err = file.WriteAt(data, int64(localPos)); err != nil {
+				file.Close()
 				return nil, fmt.Errorf("failed to remap primary offset in index file %s: %w", fileName, err)
 			}
 			if len(delPosList) != 0 {
